@@ -1,0 +1,18 @@
+//go:build !verif
+
+package msgpipeline
+
+import "github.com/foxcpp/maddy/framework/module"
+
+// Trace hooks of the verification harness (/verif); no-ops without the build tag "verif".
+
+func verifBegin(*MsgPipeline, *msgpipelineDelivery, string)        {}
+func verifStartFailed(*msgpipelineDelivery, error)                 {}
+func verifWrapDelivery(*msgpipelineDelivery) module.Delivery       { return nil }
+func verifRouted(*msgpipelineDelivery, string, string, *rcptBlock) {}
+func verifWrapState(_ *checkRunner, _ module.Check, s module.CheckState, _ error) module.CheckState {
+	return s
+}
+func verifWrapTarget(_ *msgpipelineDelivery, _ module.DeliveryTarget, d module.Delivery, _ error) module.Delivery {
+	return d
+}
